@@ -190,7 +190,7 @@ def run_relay(pid, tier, t0):
     g = gen_scripts(thorough, pid)
     scripts = g.cases
     pairs = ALL_PAIRS if thorough else QUICK_PAIRS
-    per_pair = 40 if thorough else 12
+    per_pair = 20 if thorough else 12
     results = []
     for mode, splice, buffer in IO_MODES:
         alive, panic = run_mode(wd, mode, splice, buffer, pairs, scripts, per_pair, seed, results)
@@ -211,17 +211,25 @@ def run_relay(pid, tier, t0):
     accepted = 0
     nev = 0
     for mode, _, _ in IO_MODES:
-        rs = [r for r in results if r.get("mode") == mode and r.get("scn") and not r.get("unmatched")]
-        lines = build_trace(rs)
-        nev += len(lines)
-        tp = os.path.join(wd, "trace_%s.ndjson" % mode)
-        vlib.write_ndjson(tp, lines)
-        acc, info, tr = vlib.validate_trace("TraceRelay", "TraceRelay.cfg", tp, timeout=2400, name="trace_relay", dfs=False)
-        if acc:
-            accepted += len(rs)
-            continue
+        rs_all = [r for r in results if r.get("mode") == mode and r.get("scn") and not r.get("unmatched")]
+        # in chunks: a rejected (or too slow) chunk is taken apart tunnel by tunnel, the others are not
+        chunks = [rs_all[i:i + 120] for i in range(0, len(rs_all), 120)]
+        todo = []
+        for ci, rs in enumerate(chunks):
+            lines = build_trace(rs)
+            nev += len(lines)
+            tp = os.path.join(wd, "trace_%s_%d.ndjson" % (mode, ci))
+            vlib.write_ndjson(tp, lines)
+            try:
+                acc, info, tr = vlib.validate_trace("TraceRelay", "TraceRelay.cfg", tp, timeout=900, name="trace_relay", dfs=False)
+            except vlib.ToolError:
+                acc = False
+            if acc:
+                accepted += len(rs)
+            else:
+                todo += rs
         # find the offending tunnel(s): validate each tunnel separately
-        for r in rs:
+        for r in todo:
             one = build_trace([r])
             op = os.path.join(wd, "one.ndjson")
             vlib.write_ndjson(op, one)
